@@ -83,6 +83,9 @@ func c08Data() map[string]interface{} {
 		"fmi":  func(m map[string]interface{}) (int, error) { return len(m), nil },
 		"bad3": map[string]interface{}{"k1": "x", "k2": true, "k3": []int{1}, "k4": map[string]int{}, "k5": "y"},
 		"ok3":  map[string]interface{}{"k1": 1.0, "k2": 2.0, "k3": 3.0},
+		// failing entries whose keys print alike (1 and "1"; [2]string{"a b","c"} and {"a","b c"})
+		"fmk":  func(m map[interface{}]int) (int, error) { return len(m), nil },
+		"badk": map[interface{}]interface{}{1: "x", "1": true, int64(1): []int{1}, [2]string{"a b", "c"}: "y", [2]string{"a", "b c"}: false},
 	}
 }
 
@@ -92,6 +95,8 @@ var c08Shared = map[string]interface{}{
 	"nums":  []interface{}{3.0, 1.0, 2.0},
 	"srows": []map[string]interface{}{{"k": "r2"}, {"k": "r1"}},
 	"smap":  map[string]interface{}{"b": "B", "a": "A"},
+	"big":   decimal.New(1, -100), // 1e100, a number object owned by the caller
+	"neg":   decimal.New(-25, 1),
 	"fss":   func(xs []string) (string, error) { return strings.Join(xs, "/"), nil },
 	"fsi":   func(xs []interface{}) (int, error) { return len(xs), nil },
 }
@@ -117,7 +122,8 @@ var c08Pool = func() []poolEntry {
 		"date(1e-70, 1, 1)", "left(s, 1e-70) + toString(10/3)", "[1e-70 % 3, 7 % 1e9000, 1e9000 % 7]",
 		"(n ?? n)!.c", "(n ? a : n)!.c", "(z && n)!.x", "[n][0]", "f(1, 'x')!.y", "(a + b)!.z", "(typeof n)!.k + 1",
 		"foo()", "left(s,-1)", "n!.y", "regexp(s,'(')", "ef()", "x = 1", "[a].b",
-		"fm(bad3)", "fm(ok3)", "fmi(bad3)", "toString(bad3) + toString(ok3)", "join([bad3, ok3], ';')",
+		"fm(bad3)", "fm(ok3)", "fmi(bad3)", "fmk(badk)",
+		"$g = 5e70, [ln($g) == ln($g), log($g), log($g), $g]", "[log(1e100), ln(3e65), sqrt(4e70), exp(-200)]", "n!.alpha", "n!.beta", "p.zz!.alpha.beta", "toString(bad3) + toString(ok3)", "join([bad3, ok3], ';')",
 	}
 	var pool []poolEntry
 	for _, s := range srcs {
@@ -162,7 +168,8 @@ var c08Pool = func() []poolEntry {
 	// data objects that are NOT rebuilt for every evaluation: an evaluation that reorders, truncates or
 	// rewrites a caller's slice or map changes what the next evaluation of the same tree sees
 	for _, s := range []string{"join(tags, ',') + (includes(tags, 'gamma') ? '!' : '?')", "includes(tags, 'alpha') + join(tags, '-')", "[max(nums...), min(nums...), nums]", "mapToArr(srows, 'k')",
-		"join(mapToArr(srows, 'k'), '+') + len(tags)", "[tags, nums, srows, smap.b + smap.a]", "left(join(tags, ''), 3) + right(join(tags, ''), 2)", "fss(tags) + fsi(nums)"} {
+		"join(mapToArr(srows, 'k'), '+') + len(tags)", "[tags, nums, srows, smap.b + smap.a]", "left(join(tags, ''), 3) + right(join(tags, ''), 2)", "fss(tags) + fsi(nums)",
+		"[log(big), ln(big), log(big), big]", "[abs(neg), floor(neg), -neg, neg]", "max(big, neg) + min(neg, big)"} {
 		pool = append(pool, poolEntry{src: s, data: func() map[string]interface{} { return c08Shared }})
 	}
 	pool = append(pool, poolEntry{src: "u.name + '|' + u.Name + '|' + u.NAME + '|' + u.nAmE", data: c08With("u", map[string]interface{}{"Name": "alice", "NAME": "bob", "nom": "x"})})
@@ -364,8 +371,10 @@ func observe(entry, kind int, shared map[string]*formula.SourceCode) (obs string
 		return s, nil
 	case 1, 2:
 		src, ok := shared[e.src]
+		var buf []byte // the caller's buffer the tree was parsed from (when it was parsed here)
 		if !ok {
-			o := safeParse([]byte(e.src))
+			buf = []byte(e.src)
+			o := safeParse(buf)
 			if o.panicked || o.err != nil {
 				return "unparsable", nil
 			}
@@ -384,9 +393,36 @@ func observe(entry, kind int, shared map[string]*formula.SourceCode) (obs string
 				obs = "panic:" + o.panicMsg
 			case o.err != nil:
 				obs = "error:" + o.err.Error()
+				retained = append(retained, retainedVal{o.err, obs, e.src}) // an error handed out keeps its text
 			default:
 				obs = showExact(o.val)
 				retained = append(retained, retainedVal{o.val, obs, e.src})
+			}
+			if buf != nil && len(buf) > 0 {
+				// the caller goes on to use its buffer for the next text: the tree parsed from it is a value
+				// of its own (a formula parsed in between must not change what this tree evaluates to)
+				next := "'other' + (9 - 8) * zz"
+				for i := range buf {
+					buf[i] = next[i%len(next)]
+				}
+				safeParse(buf)
+				r2 := formula.NewRunner()
+				if !e.noData {
+					r2.SetThis(e.data())
+				}
+				o2 := safeResolve(r2, bg, src.Expression)
+				obs2 := ""
+				switch {
+				case o2.panicked:
+					obs2 = "panic:" + o2.panicMsg
+				case o2.err != nil:
+					obs2 = "error:" + o2.err.Error()
+				default:
+					obs2 = showExact(o2.val)
+				}
+				if obs2 != obs && !strings.Contains(e.src, "$") && e.src != "" {
+					return obs, eng.F("C08/tree-follows-buffer", "%q evaluates to %s; after the caller reused the byte slice it was parsed from for another text, the same tree evaluates to %s", e.src, tail200(obs), tail200(obs2))
+				}
 			}
 		} else {
 			func() {
@@ -466,6 +502,12 @@ func judgePure(c PureCase) *eng.Fail {
 		}
 		outcome(got)
 		for _, rv := range retained {
+			if err, isErr := rv.v.(error); isErr {
+				if now := "error:" + err.Error(); now != rv.obs {
+					return eng.F("C08/result-mutated-later", "the error returned earlier for %q read %q and reads %q after operation %d (%s of %q)", rv.src, rv.obs, now, i+1, kinds[op[1]], c08Pool[op[0]].src)
+				}
+				continue
+			}
 			if now := showExact(rv.v); now != rv.obs {
 				return eng.F("C08/result-mutated-later", "the value returned earlier for %q was %s and is now %s after operation %d (%s of %q)", rv.src, rv.obs, now, i+1, kinds[op[1]], c08Pool[op[0]].src)
 			}
